@@ -244,6 +244,69 @@ def r5_derived(idx, r):
     r.require(seq == want_order, "derivation-order", idx.method(XSC + ".MacroscopicCrossSectionCreator", "createMacrosFromMicros"), msg=f"derived quantities must be computed after their inputs: {seq}")
 
 
+def r7_equality_helper(idx, r):
+    """Conflicts between libraries (group structures, metadata) are detected with utils.properties.numpyHackForEqual.
+    For arrays its verdict must be 'no element differs'. Decided by a truth table: the returned expression is evaluated
+    for every pattern of element-wise inequality of two-element arrays."""
+    import itertools
+
+    f = idx.func("armi.utils.properties.numpyHackForEqual")
+    if f is None:
+        raise AnchorMissing("armi.utils.properties.numpyHackForEqual")
+    ne = [st for st in walk_local(f.node) if isinstance(st, ast.Assign) and isinstance(st.value, ast.Compare) and isinstance(st.value.ops[0], ast.NotEq) and isinstance(st.targets[0], ast.Name)]
+    if len(ne) != 1:
+        raise AnalysisError("numpyHackForEqual: expected one `x = val1 != val2`")
+    var = ne[0].targets[0].id
+    rets = [x for n in walk_local(f.node) if isinstance(n, ast.ExceptHandler) for x in ast.walk(n) if isinstance(x, ast.Return)]
+    if not rets:
+        raise AnchorMissing("numpyHackForEqual: array branch (except handler) return")
+
+    def ev(e, bits):
+        if isinstance(e, ast.UnaryOp) and isinstance(e.op, ast.Not):
+            return not ev(e.operand, bits)
+        if isinstance(e, ast.UnaryOp) and isinstance(e.op, ast.Invert):
+            v = ev(e.operand, bits)
+            return tuple(not b for b in v)
+        if isinstance(e, ast.Name) and e.id == var:
+            return bits
+        if isinstance(e, ast.Call):
+            d = dotted(e.func) or ""
+            tgt = None
+            if isinstance(e.func, ast.Attribute) and e.func.attr in ("any", "all") and not e.args:
+                tgt, how = ev(e.func.value, bits), e.func.attr
+            elif d in ("np.any", "np.all", "any", "all") and len(e.args) == 1:
+                tgt, how = ev(e.args[0], bits), d.split(".")[-1]
+            if isinstance(tgt, tuple):
+                return any(tgt) if how == "any" else all(tgt)
+        raise AnalysisError(f"numpyHackForEqual: `{norm(e)[:60]}` outside the truth-table fragment")
+
+    for ret in rets:
+        table = {bits: ev(ret.value, bits) for bits in itertools.product((False, True), repeat=2)}
+        wrong = [bits for bits, v in table.items() if v != (not any(bits))]
+        r.require(not wrong, f"array-verdict:{norm(ret.value)[:40]}", f, node=ret,
+                  msg=f"`{norm(ret)}` calls two arrays equal when the element-wise inequality pattern is {wrong[0] if wrong else ''}: "
+                      "group structures that differ in some but not all bounds are then accepted as identical and merged")
+
+
+def r8_suffix_selection(idx, r):
+    """The nuclides of one composition are selected by cross-section ID: the ID is compared with the SUFFIX field of a
+    label (getSuffixFromNuclideLabel / a slice from the end), never with the whole label, whose name part can contain the
+    same two letters (NA23AA for ID 'NA')."""
+    f = idx.method("armi.nuclearDataIO.xsLibraries.IsotxsLibrary", "getNuclides")
+    if f is None:
+        raise AnchorMissing("IsotxsLibrary.getNuclides")
+    suf = [p for p in f.params() if p != "self"][0]
+    tests = [n for n in ast.walk(f.node) if isinstance(n, ast.Compare) and isinstance(n.ops[0], (ast.In, ast.Eq)) and isinstance(n.left, ast.Name) and n.left.id == suf]
+    if not tests:
+        raise AnchorMissing("getNuclides: comparison of the suffix with a label")
+    for t in tests:
+        rhs = t.comparators[0]
+        field = (isinstance(rhs, ast.Call) and "Suffix" in (dotted(rhs.func) or "")) or (isinstance(rhs, ast.Subscript) and isinstance(rhs.slice, ast.Slice) and rhs.slice.lower is not None and isinstance(rhs.slice.lower, ast.UnaryOp))
+        r.require(field, f"getNuclides:{norm(t)[:50]}", f, node=t,
+                  msg=f"`{norm(t)}` matches the cross-section ID against `{norm(rhs)[:40]}`, not against the label's suffix field: nuclides of OTHER IDs whose name contains "
+                      "the two letters are added to this composition's macroscopic sums")
+
+
 def run(idx, chk):
     chk.explanation = (
         "C10: metadata/collection merges never write into their inputs and raise on conflicts; direct stores into the target library happen only "
@@ -262,3 +325,7 @@ def run(idx, chk):
     chk.run_rule("R10.4", "macroscopic sums are linear in density and in the microscopic datum, additive over one composition; chi average normalised by its own weights", lambda r: r4_linearity(idx, r), floor=9,
                  necessary="macroscopic data are the density-weighted sums of the microscopic ones")
     chk.run_rule("R10.5", "absorption, removal and total scatter equal their defining sums and are derived in dependency order", lambda r: r5_derived(idx, r), floor=7, necessary="derived quantities equal their defining sums")
+    chk.run_rule("R10.7", "the equality helper behind conflict detection calls arrays equal only when no element differs (truth table)", lambda r: r7_equality_helper(idx, r), floor=1,
+                 necessary="'different group structures are rejected' also when they differ in only some bounds")
+    chk.run_rule("R10.8", "nuclides of a composition are selected by comparing the XS ID with the label's suffix field only", lambda r: r8_suffix_selection(idx, r), floor=1,
+                 necessary="macroscopic sums are 'additive over nuclides' of ONE composition")
